@@ -229,6 +229,11 @@ func run(rc *runConfig) int {
 			continue
 		}
 		execs = append(execs, x)
+		if os.Getenv("LIMEVC_NOTES") != "" {
+			for _, nt := range x.notes {
+				fmt.Printf("NOTE %s: %s\n", n, nt)
+			}
+		}
 		for _, o := range x.obls {
 			if rc.prop == "" || hasProp(o.Props, rc.prop) || viaCallee[n] || tagged[n] {
 				obls = append(obls, o)
